@@ -36,6 +36,7 @@ for n in range(1, 21):
     sec = sec.replace("{{FIXED:%s}}" % prop, "; ".join(f"{short(v, prop)} {k}" for k, v in fixed.items()) or "–")
 nfix = subprocess.run("git -C /repo log --oneline | grep -c ' fix:'", shell=True, stdout=subprocess.PIPE, text=True).stdout.strip()
 sec = sec.replace("{{NFIX}}", nfix)
+sec = sec.replace("{{NSEED}}", str(len([d for d in Path("seeded").iterdir() if (d / "meta.json").exists()])))
 sec = sec.replace("SEEDED_TABLE", "<!-- SEEDED_TABLE_BEGIN -->\n" + table + "<!-- SEEDED_TABLE_END -->\n")
 marker = "---------------------------------------------------------------------------------------------------\n\n## 1. What is being built"
 i, j = d.index("## 0. As built"), d.index(marker)
